@@ -388,6 +388,8 @@ def oracle(case, impl_line):
     """Returns a list of (rule, detail, info) violations of C17 on the implementation's output.
     Rules (no more than the property states):
       panic        a read did not answer
+      json-shape   a documented JSON key (offset, timestamp, lag, owner, client_id, current-lag, current_lag, status, start, end,
+                   complete, partition_count, totallag, maxlag, ...) is missing or not of its documented type
       outlives     /metrics reports a series labelled with a group / topic / group-topic that the JSON detail endpoint
                    of the same read phase reports as not found (deleted or expired)
       listed       a list endpoint names a group / topic whose detail endpoint answers 404 in the same read phase
@@ -425,7 +427,7 @@ def oracle(case, impl_line):
             try:
                 blk = parse_block(reads[ri])
             except (ValueError, IndexError) as e:
-                bad.append(("panic", "unparsable read phase %d: %s" % (ri, e), {}))
+                bad.append(("json-shape", "read phase %d: a documented JSON field / series is missing or malformed (%s)" % (ri, e), {}))
                 ri += 1
                 continue
             bad += check_block(d, blk, ri, op, dict(last_b), commits, owners)
